@@ -7,6 +7,8 @@ ID=$1; MODE=${2:-core}; S=/verif/seeded/$ID
 W=$(mktemp -d /var/tmp/ps-seed-XXXXXX); git -C /repo worktree add -q --detach "$W" HEAD || exit 2
 trap 'git -C /repo worktree remove --force "$W" 2>/dev/null; rm -rf "$W"' EXIT
 builddemo() {
+  # a demonstration that needs its own build recipe ships seeded/<ID>/build.sh (run from the worktree root; must produce demo/demo)
+  if [ -f $S/build.sh ]; then mkdir -p $W/demo && cp $S/demo.cpp $S/build.sh $W/demo/ && (cd $W && sh demo/build.sh >/dev/null 2>&1) && cp $W/demo/demo $W/demo_bin; return $?; fi
   local extra=""; [ -f $S/demo.cinter ] && extra="$W/src/cinter/splinetable.cpp"
   if [ "$MODE" = fitter ] || [ "$MODE" = tsan ]; then
     local san=""; [ "$MODE" = tsan ] && san="-fsanitize=thread -g"
